@@ -67,6 +67,31 @@ pub fn dispatch(id: &str) -> Option<fn(&mut Session) -> Meta> {
 pub fn internal(command: &str, args: &[String]) -> i32 {
   match command {
     "--internal-c13-worker" => crash::worker(args),
+    // --internal-import-crash <target> <crash file>: prints "<ID> <replay file>"
+    "--internal-import-crash" => match (args.first(), args.get(1)) {
+      (Some(target), Some(path)) => match crate::fuzz::import(target, std::path::Path::new(path)) {
+        Ok((property, replay)) => {
+          println!("{property} {}", replay.display());
+          0
+        }
+        Err(message) => {
+          eprintln!("{message}");
+          2
+        }
+      },
+      _ => 2,
+    },
+    // --internal-fuzz-seeds <target> <dir>: writes the seed corpus
+    "--internal-fuzz-seeds" => match (args.first(), args.get(1)) {
+      (Some(target), Some(dir)) => {
+        let _ = std::fs::create_dir_all(dir);
+        for (i, seed) in crate::fuzz::seeds(target).iter().enumerate() {
+          let _ = std::fs::write(std::path::Path::new(dir).join(format!("seed-{i:02}")), seed);
+        }
+        0
+      }
+      _ => 2,
+    },
     _ => 2,
   }
 }
